@@ -39,8 +39,9 @@ const (
 )
 
 var (
-	errUnknownTimerType = errors.New("unknown metric timer type")
-	ms                  = float64(time.Millisecond) / float64(time.Second)
+	errUnknownTimerType  = errors.New("unknown metric timer type")
+	errTimerTypeMismatch = errors.New("metric name and tag keys already in use by a timer or histogram of the other type (summary vs histogram)")
+	ms                   = float64(time.Millisecond) / float64(time.Second)
 )
 
 // DefaultHistogramBuckets is the default histogram buckets used when
@@ -470,6 +471,9 @@ func (r *reporter) summaryVec(
 	defer r.Unlock()
 
 	if s, ok := r.timers[id]; ok {
+		if s.summary == nil {
+			return nil, errTimerTypeMismatch
+		}
 		return s.summary, nil
 	}
 
@@ -502,6 +506,9 @@ func (r *reporter) histogramVec(
 	defer r.Unlock()
 
 	if h, ok := r.timers[id]; ok {
+		if h.histogram == nil {
+			return nil, errTimerTypeMismatch
+		}
 		return h.histogram, nil
 	}
 
